@@ -23,7 +23,7 @@ FZ_C = dict(kind='fuzz', harness='replay/fz/lz4_compress.c', sources=['src/compr
 
 JOBS = [
     # C08: decoder on arbitrary bytes / sizes / capacity
-    dict(name='c08_lz4_decompress', props=['C08', 'C10'], entry='h_lz4_decompress',
+    dict(name='c08_lz4_decompress', props=['C08', 'C09', 'C10'], entry='h_lz4_decompress',
          enforce='carquet_lz4_decompress', unwindset=UW, min_loop_obligations=6, est_s=200, timeout=900, mem_gb=14, drift_unwind=3,
          replayer=FZ_D, wip=False, **L8),
     # C09: bound arithmetic (loop free)
